@@ -149,6 +149,12 @@ Definition C02_check (npre nsamp : Z) (ts : tstate) (F0 : Z) (h : list (op * obs
   | None => false
   end.
 
-(* premise of the cross-block statements: a channel does not change its signedness during a run *)
-Definition const_signed (sgn : bool) (ops : list op) : Prop :=
-  forall s, In (Block s) ops -> seg_signed s = sgn.
+(* premises on the operations of a history: those of C01 (one sample period, edge-multi off, record lengths
+   that fit EMTState's int32 fields) and a channel does not change its signedness during a run *)
+Definition op_ok2 (period : Z) (sgn : bool) (o : op) : Prop :=
+  op_ok period o /\ match o with Block sg => seg_signed sg = sgn | _ => True end.
+
+(* premise of the auto gap bound only: auto delays below 2^60 samples ("far past" + delay stays in the past) *)
+Definition max_delay : Z := 1152921504606846976.
+Definition delay_ok (o : op) : Prop :=
+  match o with CfgTrig ts => ts_autodelay ts <= max_delay | _ => True end.
